@@ -298,15 +298,18 @@ def clause_b(ctx: Context, idx) -> None:
                         and isinstance(x.target, ast.Tuple) and len(x.target.elts) == 2 and isinstance(x.target.elts[1], ast.Tuple) \
                         and len(x.target.elts[1].elts) == 2 and all(isinstance(y, ast.Name) for y in x.target.elts[1].elts):
                     pair = tuple(y.id for y in x.target.elts[1].elts)  # (ket basis, bra basis)
-            if isinstance(node, ast.Assign) and len(node.targets) == 1 and isinstance(node.targets[0], ast.Name) \
-                    and isinstance(node.value, ast.Call) and norm(node.value.func).split(".")[-1] == "exp" and pair is not None:
-                arg = node.value.args[0]
+            if isinstance(node, ast.Call) and norm(node.func).split(".")[-1] == "exp" and pair is not None and len(node.args) == 1:
+                arg = node.args[0]
                 syms = {}
                 local_defs = {}
                 for a_ in ast.walk(fn.node):
                     if isinstance(a_, ast.Assign) and len(a_.targets) == 1 and isinstance(a_.targets[0], ast.Name) and isinstance(a_.value, ast.Subscript) \
                             and norm(a_.value.value) in pair:
                         local_defs[a_.targets[0].id] = a_.value
+                # only factors that depend on the (ket, bra) pair are elementwise factors of the density matrix
+                mentioned = {n_.id for n_ in ast.walk(arg) if isinstance(n_, ast.Name)}
+                if not (mentioned & (set(pair) | set(local_defs))):
+                    continue
                 def tr(e, swap):
                     if isinstance(e, ast.Constant):
                         return sp.I if isinstance(e.value, complex) and e.value == 1j else sp.sympify(e.value)
